@@ -83,3 +83,151 @@ Definition cl_schema : schema :=
 
 Example cl_schema_wf : wf_notrace_b cl_schema = true.
 Proof. vm_compute. reflexivity. Qed.
+
+(* ---- child-level wirings (store_c06_child.go: C06cp, C06cx, C06cm; generated from the harness' own schema text) ----
+   The per-level delete work lives on CHILD stores here: link collections whose local side is a child store, set index /
+   fk index / fk constraints (as referrer and as target) declared on a child store, several child stores under one parent. *)
+Definition n_a : name := [97].
+Definition n_b : name := [98].
+Definition n_boss : name := [98;111;115;115].
+Definition n_bs : name := [98;115].
+Definition n_bx : name := [98;120].
+Definition n_bxs : name := [98;120;115].
+Definition n_c : name := [99].
+Definition n_cas : name := [99;97;115].
+Definition n_code : name := [99;111;100;101].
+Definition n_cps : name := [99;112;115].
+Definition n_cqs : name := [99;113;115].
+Definition n_crew : name := [99;114;101;119].
+Definition n_emp : name := [101;109;112].
+Definition n_eng : name := [101;110;103].
+Definition n_engs : name := [101;110;103;115].
+Definition n_grade : name := [103;114;97;100;101].
+Definition n_grps : name := [103;114;112;115].
+Definition n_head : name := [104;101;97;100].
+Definition n_heads : name := [104;101;97;100;115].
+Definition n_k : name := [107].
+Definition n_labs : name := [108;97;98;115].
+Definition n_level : name := [108;101;118;101;108].
+Definition n_loc : name := [108;111;99].
+Definition n_managers : name := [109;97;110;97;103;101;114;115].
+Definition n_marks : name := [109;97;114;107;115].
+Definition n_mentor : name := [109;101;110;116;111;114].
+Definition n_mgr : name := [109;103;114].
+Definition n_name : name := [110;97;109;101].
+Definition n_offices : name := [111;102;102;105;99;101;115].
+Definition n_owner : name := [111;119;110;101;114].
+Definition n_p : name := [112].
+Definition n_pc : name := [112;99].
+Definition n_pcs : name := [112;99;115].
+Definition n_peer : name := [112;101;101;114].
+Definition n_peers : name := [112;101;101;114;115].
+Definition n_pname : name := [112;110;97;109;101].
+Definition n_proj : name := [112;114;111;106].
+Definition n_ps : name := [112;115].
+Definition n_px : name := [112;120].
+Definition n_q : name := [113].
+Definition n_qc : name := [113;99].
+Definition n_qs : name := [113;115].
+Definition n_r : name := [114].
+Definition n_reports : name := [114;101;112;111;114;116;115].
+Definition n_roles : name := [114;111;108;101;115].
+Definition n_site : name := [115;105;116;101].
+Definition n_siteMgrs : name := [115;105;116;101;77;103;114;115].
+Definition n_sites : name := [115;105;116;101;115].
+Definition n_skills : name := [115;107;105;108;108;115].
+Definition n_staff : name := [115;116;97;102;102].
+Definition n_tagsx : name := [116;97;103;115;120].
+Definition n_tasks : name := [116;97;115;107;115].
+Definition n_title : name := [116;105;116;108;101].
+Definition n_x : name := [120].
+Definition n_xrs : name := [120;114;115].
+Definition n_y : name := [121].
+
+Definition C06cp_schema : schema :=
+  [ mkSdef n_emp None false [(n_name, false); (n_boss, true)] [n_roles; n_skills]
+      [CUnique n_name false; CSetIdx n_roles; CFkIndex n_boss n_emp n_reports true; CFkRestrict n_reports]
+      [(n_sites, n_loc, n_staff)];
+    mkSdef n_loc None false [(n_title, false); (n_head, true)] [n_tagsx]
+      [CUnique n_title false; CSetIdx n_tagsx; CFkRestrict n_siteMgrs; CFkIndex n_head n_mgr n_heads true]
+      [(n_staff, n_emp, n_sites); (n_managers, n_mgr, n_offices)];
+    mkSdef n_proj None false [(n_pname, false); (n_owner, true)] []
+      [CFkCascade n_eng n_proj CascDelete; CFkCons n_owner n_eng true]
+      [(n_crew, n_eng, n_tasks)];
+    mkSdef n_mgr (Some n_emp) false [(n_level, true); (n_site, true)] []
+      [CUnique n_level true; CSetIdx n_skills; CFkIndex n_site n_loc n_siteMgrs true; CFkRestrict n_heads; CFkCascade n_eng n_mentor CascNone]
+      [(n_offices, n_loc, n_managers)];
+    mkSdef n_eng (Some n_emp) false [(n_grade, true); (n_proj, false); (n_mentor, true)] []
+      [CUnique n_grade true; CFkIndex n_proj n_proj n_engs false; CFkCons n_mentor n_mgr true; CFkCascade n_proj n_owner CascNone]
+      [(n_tasks, n_proj, n_crew)] ].
+
+Definition C06cx_schema : schema :=
+  [ mkSdef n_a None false [(n_name, false)] [n_roles]
+      [CUnique n_name false; CSetIdx n_roles; CFkCascade n_b n_a CascDelete; CFkRestrict n_peers; CFkRestrict n_cas]
+      [(n_bxs, n_bx, n_grps)];
+    mkSdef n_b None false [(n_name, false); (n_a, false)] [n_marks]
+      [CFkIndex n_a n_a n_bs false; CSystem]
+      [];
+    mkSdef n_c None false [(n_name, true); (n_bx, true); (n_a, true)] []
+      [CFkCons n_bx n_bx true; CFkIndex n_a n_a n_cas true]
+      [];
+    mkSdef n_bx (Some n_b) true [(n_code, true); (n_peer, true)] []
+      [CUnique n_code true; CSetIdx n_marks; CFkIndex n_peer n_a n_peers true; CFkCascade n_c n_bx CascDelete]
+      [(n_grps, n_a, n_bxs)] ].
+
+Definition C06cm_schema : schema :=
+  [ mkSdef n_p None false [(n_name, false)] []
+      [CUnique n_name false]
+      [(n_qs, n_q, n_ps)];
+    mkSdef n_q None false [(n_name, true)] [n_labs]
+      [CFkRestrict n_xrs]
+      [(n_ps, n_p, n_qs)];
+    mkSdef n_px (Some n_p) true [(n_x, true); (n_r, true)] []
+      [CUnique n_x true; CFkIndex n_r n_q n_xrs true]
+      [];
+    mkSdef n_pc (Some n_p) false [(n_k, true); (n_q, true)] []
+      [CUnique n_k true; CFkIndex n_q n_qc n_pcs true]
+      [(n_cqs, n_qc, n_cps)];
+    mkSdef n_qc (Some n_q) false [(n_y, true)] []
+      [CUnique n_y true; CFkRestrict n_pcs; CSetIdx n_labs]
+      [(n_cps, n_pc, n_cqs)] ].
+
+
+(* wf_notrace_b (generalised to child-level declarations: link collections whose local / other side is a child store, fk
+   indexes and fk constraints of a child store on its own fields, child stores as fk targets, set indexes of a child store over
+   a string list of its root store) accepts the three wirings: the theorems of Properties/C06.v apply to them. *)
+Example C06cp_schema_wf : wf_notrace_b C06cp_schema = true.
+Proof. vm_compute. reflexivity. Qed.
+Example C06cx_schema_wf : wf_notrace_b C06cx_schema = true.
+Proof. vm_compute. reflexivity. Qed.
+Example C06cm_schema_wf : wf_notrace_b C06cm_schema = true.
+Proof. vm_compute. reflexivity. Qed.
+
+(* the check still refuses what the proofs cannot do without: a link collection of a child store that is not declared on
+   the other side, a child-level fk index without its delete guard on the target, two set indexes on one string list in a
+   family, a link set of a child store named like a back-reference set kept on the same root entity *)
+Definition drop_links_of (s : name) (sch : schema) : schema :=
+  map (fun d => if str_eqb (sd_name d) s then mkSdef (sd_name d) (sd_parent d) (sd_ext d) (sd_fields d) (sd_sets d) (sd_cons d) [] else d) sch.
+Definition drop_cons_of (s : name) (keep : cons -> bool) (sch : schema) : schema :=
+  map (fun d => if str_eqb (sd_name d) s then mkSdef (sd_name d) (sd_parent d) (sd_ext d) (sd_fields d) (sd_sets d) (filter keep (sd_cons d)) (sd_links d) else d) sch.
+Definition add_cons_to (s : name) (k : cons) (sch : schema) : schema :=
+  map (fun d => if str_eqb (sd_name d) s then mkSdef (sd_name d) (sd_parent d) (sd_ext d) (sd_fields d) (sd_sets d) (sd_cons d ++ [k]) (sd_links d) else d) sch.
+(* rename the local link field [from] of store s to [to], on both sides of the collection *)
+Definition rename_link_of (s : name) (from to : name) (sch : schema) : schema :=
+  map (fun d => mkSdef (sd_name d) (sd_parent d) (sd_ext d) (sd_fields d) (sd_sets d) (sd_cons d)
+                  (map (fun l : name * name * name => match l with (lf, os, of_) =>
+                          if str_eqb (sd_name d) s then (if str_eqb lf from then (to, os, of_) else l)
+                          else if str_eqb os s && str_eqb of_ from then (lf, os, to) else l end) (sd_links d))) sch.
+
+Example child_link_one_sided_refused : wf_notrace_b (drop_links_of n_loc C06cp_schema) = false.
+Proof. vm_compute. reflexivity. Qed.
+Example child_fk_without_guard_refused :
+  wf_notrace_b (drop_cons_of n_loc (fun k => match k with CFkRestrict _ => false | _ => true end) C06cp_schema) = false.
+Proof. vm_compute. reflexivity. Qed.
+Example two_setidx_on_one_list_refused : wf_notrace_b (add_cons_to n_emp (CSetIdx n_skills) C06cp_schema) = false.
+Proof. vm_compute. reflexivity. Qed.
+Example rename_link_harmless : wf_notrace_b (rename_link_of n_mgr n_offices n_x C06cp_schema) = true.
+Proof. vm_compute. reflexivity. Qed.
+(* "reports" is the back-reference set that emp.boss keeps on emp entities; mgr's link set lives in the same entity *)
+Example child_link_named_like_backref_refused : wf_notrace_b (rename_link_of n_mgr n_offices n_reports C06cp_schema) = false.
+Proof. vm_compute. reflexivity. Qed.
